@@ -254,11 +254,11 @@ fn fits_body<'a>(defs: &[DefD], utf8: usize, pool: Option<&'a [Val]>, mut binds:
 	true
 }
 
-// ---------------------------------------------------------------- regions of the known JVMS defects (`RawLayout.avoidsV` / `knownBad`)
+// ---------------------------------------------------------------- region of the open JVMS defect (`RawLayout.avoidsV` / `knownBad`)
 
-/// `RawLayout.knownBad`: long/double pool entries, the NestMembers and MethodParameters attributes
+/// `RawLayout.knownBad`: long/double pool entries (NestMembers / MethodParameters were repaired in /repo)
 pub fn known_bad(cp_id: usize, id: usize, v: &VariantD) -> bool {
-	(id == cp_id && matches!(v.tag.e, E::Lit(5) | E::Lit(6))) || v.guard == Some(b"NestMembers") || v.guard == Some(b"MethodParameters")
+	id == cp_id && matches!(v.tag.e, E::Lit(5) | E::Lit(6))
 }
 
 /// `RawLayout.avoidsV`: no node of the value is a variant for which `bad` holds
